@@ -21,7 +21,7 @@ ANCHORS = ['penman.layout:interpret', 'penman.layout:_interpret_node', 'penman.l
 MIN_EVAL = {'quick': 3000, 'thorough': 100000}
 REQUIRED_COUNTERS = ['wf_trees', 'texts_with_comment_lines']
 ASSUMPTIONS = ['well-formedness is decided by the reference reading (pmon/ref/interp.py)']
-MODELS_RANDOM = ['default', 'amr', 'noop', 'mini', 'inv'] + [f'rand{i}' for i in range(12)]
+MODELS_RANDOM = ['default', 'amr', 'noop', 'mini', 'inv', 'both', 'prefix'] + [f'rand{i}' for i in range(12)]
 
 
 def cases(ctx):
